@@ -4,6 +4,7 @@ import FlVerif.Lemmas.Weighted
 import FlVerif.Lemmas.Norm
 import FlVerif.Props.C04
 import FlVerif.Gen.TermGen
+import FlVerif.Lemmas.CodeWeighted
 
 /-! # C10 — Weighted defuzzifiers compute the grouped weighted average / sum
 
@@ -24,6 +25,39 @@ variable {α : Type} [Field α] [LinearOrder α] [IsStrictOrderedRing α]
 variable {ν : Type} [DecidableEq ν]
 open X Op.Weighted Lemmas.Weighted
 open Spec (I snorm SNorm grouped sumW sumWZ)
+
+/-! ## the models are the code
+
+`Gen.Code.Aggregated_grouped_terms`, `Gen.Code.WeightedAverage_defuzzify`, `Gen.Code.WeightedSum_defuzzify` are
+regenerated from the sources of `Aggregated.grouped_terms`, `WeightedAverage.defuzzify`, `WeightedSum.defuzzify` on
+every run (`fv/pylean.py`), at the rationals with strings as term names. -/
+
+/-- **Tie A (code → model).**  The dictionary `grouped_terms()` returns holds exactly the groups of
+    `Op.Weighted.groupedTerms`, in their order, each under the name of its term - for every aggregation operator (or
+    none) and every list of activations. -/
+theorem code_groupedTerms (agg : Option (X ℚ → X ℚ → X ℚ)) (acts : List (Act String ℚ)) :
+    ∃ σ, Gen.Code.Aggregated_grouped_terms.run agg acts {} = .ok σ ∧
+      σ.ret = some ((groupedTerms agg acts).map (fun g => (g.1.name, g))) :=
+  Op.Weighted.code_groupedTerms agg acts
+
+/-- **Tie A (code → model).**  `WeightedAverage.defuzzify` on an `Aggregated` term raises the exception the model
+    `Op.Weighted.weightedAverage` predicts (`TypeError` of `infer_type`, `RuntimeError` of `Term.tsukamoto`) and
+    otherwise returns the value of the model - for every type setting, aggregation operator and list of
+    activations; on a term that is not `Aggregated` it raises `ValueError`. -/
+theorem code_weightedAverage (ty : WType) (agg : Option (X ℚ → X ℚ → X ℚ)) (acts : List (Act String ℚ)) :
+    (match weightedAverage ty agg acts with
+     | .error e => Gen.Code.WeightedAverage_defuzzify.run ty (some ⟨agg, acts⟩) {} = .error (Py.W.errToPy e)
+     | .ok y => ∃ σ, Gen.Code.WeightedAverage_defuzzify.run ty (some ⟨agg, acts⟩) {} = .ok σ ∧ σ.ret = some y) ∧
+    Gen.Code.WeightedAverage_defuzzify.run ty none {} = .error .value :=
+  Op.Weighted.code_weightedAverage ty agg acts
+
+/-- **Tie A (code → model).**  The same for `WeightedSum.defuzzify` and `Op.Weighted.weightedSum`. -/
+theorem code_weightedSum (ty : WType) (agg : Option (X ℚ → X ℚ → X ℚ)) (acts : List (Act String ℚ)) :
+    (match weightedSum ty agg acts with
+     | .error e => Gen.Code.WeightedSum_defuzzify.run ty (some ⟨agg, acts⟩) {} = .error (Py.W.errToPy e)
+     | .ok y => ∃ σ, Gen.Code.WeightedSum_defuzzify.run ty (some ⟨agg, acts⟩) {} = .ok σ ∧ σ.ret = some y) ∧
+    Gen.Code.WeightedSum_defuzzify.run ty none {} = .error .value :=
+  Op.Weighted.code_weightedSum ty agg acts
 
 /-! ## grouping -/
 
